@@ -1033,7 +1033,8 @@ func checkModuleMigrationsWriteNoData(p *Prog, r *Report, kp func(string, string
 				}
 				for _, so := range storeOpsOf(p, g) {
 					// the pnft store is x/nft's: every raw write of pnft code there lands among the class, token and owner records
-					if (so.Op == "Set" || so.Op == "Delete") && InPkgs(so.Fn, "x/pnft") {
+					// (a family under a prefix of the module's own — an index the migration builds — is not one of them)
+					if (so.Op == "Set" || so.Op == "Delete") && InPkgs(so.Fn, "x/pnft") && !(so.Key != nil && otherFamilyKey(p, so.Key)) {
 						bad = "a raw " + so.Op + " on the pnft store (in " + FuncName(g) + ")"
 					}
 				}
